@@ -328,6 +328,8 @@ func (s *ExecutableSchema) interceptResponse(ctx context.Context, operationName,
 
 // Schema returns the merged schema
 func (s *ExecutableSchema) Schema() *ast.Schema {
+	s.mutex.RLock()
+	defer s.mutex.RUnlock()
 	return s.MergedSchema
 }
 
